@@ -198,6 +198,8 @@ def parseGoError (s : String) : Option GoError :=
   | ["url-deadline"] => some (.wrap (.ctx .deadline))
   | ["wrapped-canceled"] => some (.wrap (.wrap (.ctx .canceled)))
   | ["opaque"] => some .opaque
+  | ["cause"] => some .opaque
+  | ["url-cause"] => some (.wrap .opaque)
   | ["closedpipe"] => some .opaque
   | ["eof"] => some .eof
   | ["ueof"] => some .unexpectedEOF
@@ -208,16 +210,22 @@ def parseGoError (s : String) : Option GoError :=
 def cflowOp (args : List String) : String :=
   match kv args "point", (kv args "err").bind parseGoError with
   | some point, some e =>
+    -- `done=`: the call's context has ended (that way) by the time the transport reports `e`
+    let done : Option CtxKind := match kv args "done" with
+      | some "canceled" => some .canceled
+      | some "deadline" => some .deadline
+      | _ => none
     let first : Option GoError :=
       match point.splitOn ":" with
       | ["do"] =>
-        match setError none (doError e) with
+        match setError none (doErrorDone done e) with
         | some stored => some (clientReceiveError (envelopePrefixError 0 stored))
         | none => none
-      | ["prefix", n] => n.toNat?.map fun k => clientReceiveError (envelopePrefixError k (duplexReadError e))
+      | ["prefix", n] => n.toNat?.map fun k => clientReceiveError (envelopePrefixError k (duplexReadErrorDone none done e))
       | ["payload", _] =>
-        let r := duplexReadError e
+        let r := duplexReadErrorDone none done e
         some (clientReceiveError (if r.isEOF then .coded codeInvalidArgument .opaque else envelopePayloadError r))
+      | ["discard", _] => some (clientReceiveError (envelopeDiscardError (duplexReadErrorDone none done e)))
       | _ => none
     match first with
     | some f =>
@@ -242,6 +250,7 @@ def cwatchOp (args : List String) : String :=
       match point.splitOn ":" with
       | ["prefix", n] => n.toNat?.map fun j => clientReceiveError (envelopePrefixError j r)
       | ["payload", _] => some (clientReceiveError (if r.isEOF then .coded codeInvalidArgument .opaque else envelopePayloadError r))
+      | ["discard", _] => some (clientReceiveError (envelopeDiscardError r))
       | _ => none
     match first, stored with
     | some f, some st =>
